@@ -157,3 +157,41 @@ UNITS.append(Unit('C06_families', 'C06', [variance, inv_link, d_inv_link],
                   use=core.core_stubs() + _vstubs + [c04.vec_neg, c04.KERNELS['vmul']] + [f for f in c04.VECTOR_UNARY if f.path.endswith('::exp')],
                   types=TYPES, type_spec=core.TYPE_SPEC, spec=SPEC + FAM_SPEC, preludes=PRE, broadcast=BC, level='L1', rlimit=100,
                   notes='variance function, inverse link and its derivative of the six families equal the textbook table element by element'))
+
+# ---------------------------------------------------------------- predictions = inverse link of X beta + offset
+from contracts import C15b as c15b
+PRED_SPEC = c15b.DESIGN_SPEC + r'''
+pub open spec fn glm_fitted_inv(g: GLM) -> bool {
+    match (g.coef, g.p) { (Some(c), Some(p)) => c@.len() == p && p > 0, (None, _) => true, _ => false }
+}
+pub open spec fn off_at(g: GLM, i: int) -> real { match g.offsets { Some(o) => rv(o@[i]), None => 0real } }
+pub open spec fn glm_pred_valid(g: GLM, x: Seq<f64>) -> bool {
+    g.coef is Some ==> {
+        let p = g.p->Some_0 as int; let n = (x.len() as int) / p;
+        (x.len() as int) % p == 0 && design_def(x, n, p) && (g.offsets is Some ==> g.offsets->Some_0@.len() == n)
+    }
+}
+pub open spec fn glm_pred_values(g: GLM, x: Seq<f64>, v: Seq<f64>) -> bool {
+    let p = g.p->Some_0 as int; let n = (x.len() as int) / p;
+    v.len() == n && forall|i: int| 0 <= i < n ==> rv(#[trigger] v[i]) == fam_inv_link(g.family, psum(x, p, false, g.coef->Some_0@, 1, false, i, 0, p) + off_at(g, i))
+}
+'''
+gcoef = Fn(IG + 'coef', ret='r', level='L0', ensures=['C06.coef:: match r { Ok(c) => self.coef is Some && c@ == self.coef->Some_0@, Err(_) => self.coef is None }'])
+predict = Fn(IG + 'predict', ret='r', level='L1', valid='glm_pred_valid(*self, x@)', panics={1: 'REJECT', 2: 'REJECT'},
+             rewrites=[('is_matrix(x, self.p.unwrap()).unwrap()', 'match is_matrix(x, self.p.unwrap()) { Ok(v_) => v_, Err(_) => ::core::panicking::panic("unwrap") }', 'R2b')],
+             requires=['C06.predict.inv:: glm_fitted_inv(*self)', 'C06.predict.machine:: 0 < x@.len() <= 0x7fff_ffff'],
+             ensures=['C06.predict.valid:: glm_pred_valid(*self, x@)',
+                      'C06.predict.values:: match r { Ok(v) => self.coef is Some && glm_pred_values(*self, x@, v.v@), Err(_) => self.coef is None }'],
+             hints=[('if !is_design(x, n)', 'before', 'let ghost p_ = self.p->Some_0 as int; proof { lemma_div_facts(x@.len() as int, p_); lemma_mul_div(p_, n as int); assert(n * p_ == p_ * n) by(nonlinear_arith); '
+                     'if (x@.len() as int) % p_ == 0 { lemma_mul_div(n as int, p_); assert((x@.len() as int) / (n as int) == p_); } }'),
+                    ('let result =', 'before', 'proof { assert(n > 0) by { if n == 0 { assert(p_ * 0 == 0); } } lemma_mul_div(n as int, p_); lemma_mul_div(p_, 1); assert(coef@.len() == p_ * 1); '
+                     'assert(n * 1 <= 0x7fff_ffff); }'),
+                    ('Ok(self.family.inv_link(&vadd(&result, offset)))', 'replace',
+                     '({ let e_ = vadd(&result, offset); let m_ = self.family.inv_link(&e_); proof { assert forall|i: int| 0 <= i < n implies rv(#[trigger] m_.v@[i]) == fam_inv_link(self.family, psum(x@, p_, false, coef@, 1, false, i, 0, p_) + off_at(*self, i)) by '
+                     '{ lemma_idx(i, 0, n as int, 1); assert(rv(at2(result@, 1, i, 0)) == psum(x@, p_, false, coef@, 1, false, i, 0, p_)); } assert(glm_pred_values(*self, x@, m_.v@)); } Ok(m_) })'),
+                    ('Ok(self.family.inv_link(&result))', 'replace',
+                     '({ let m_ = self.family.inv_link(&result); proof { assert forall|i: int| 0 <= i < n implies rv(#[trigger] m_.v@[i]) == fam_inv_link(self.family, psum(x@, p_, false, coef@, 1, false, i, 0, p_) + off_at(*self, i)) by '
+                     '{ lemma_idx(i, 0, n as int, 1); assert(rv(at2(result@, 1, i, 0)) == psum(x@, p_, false, coef@, 1, false, i, 0, p_)); } assert(glm_pred_values(*self, x@, m_.v@)); } Ok(m_) })')])
+UNITS.append(Unit('C06_predict', 'C06', [gcoef, predict], use=[c15.is_matrix, c15b.is_design, c05.matmul, c04.KERNELS['vadd'], inv_link], types=TYPES, type_spec=core.TYPE_SPEC,
+                  spec=SPEC + FAM_SPEC + PRED_SPEC, preludes=PRE, broadcast=BC, level='L1', rlimit=100,
+                  notes='GLM::predict returns the inverse link of X beta plus the offset element by element for a fitted model (Err when not fitted); a shape mismatch or a non-design matrix is rejected'))
